@@ -220,6 +220,33 @@ def handle : Handler := fun op args impl =>
     if k ≥ npairs then some ⟨"returned-nil", verdictOf (impl == "returned-nil") "spurious-error"⟩ else
     let outs := failOutcomes d npairs n k
     some ⟨"|".intercalate outs, if impl == "returned-error" then "pass" else "fail:error-not-returned:" ++ impl⟩
+  | "distjobs", [n, ranges, cpus] => do
+    let n ← n.toNat?
+    let r ← decInts ranges
+    -- the producer of DistMatrix: range mode iff the four bounds are >= 0
+    let jobs : Option (List (Nat × Nat)) :=
+      match r with
+      | [a, b, c, d] =>
+        if a ≥ 0 && b ≥ 0 && c ≥ 0 && d ≥ 0 then
+          let b := if b.toNat ≥ n then n - 1 else b.toNat
+          let d := if d.toNat ≥ n then n - 1 else d.toNat
+          if a.toNat > b || c.toNat > d then none else some (rangeJobs a.toNat b c.toNat d)
+        else some (halfJobs n)
+      | _ => some (halfJobs n)
+    let enc (js : List (Nat × Nat)) : String :=
+      if js.isEmpty then "_" else ",".intercalate (js.map fun p => toString p.1 ++ "-" ++ toString p.2)
+    match jobs with
+    | none => some ⟨"err", "na"⟩
+    | some js =>
+      -- with one worker the evaluation order is the producer's order; otherwise compare as multisets
+      let model := if cpus == "1" then enc js else enc (js.mergeSort fun p q => p.1 < q.1 || (p.1 == q.1 && p.2 ≤ q.2))
+      let implJobs : List (Nat × Nat) := (decStrs impl).filterMap fun t =>
+        match t.splitOn "-" with
+        | [i, j] => (i.toNat?).bind fun i => (j.toNat?).map fun j => (i, j)
+        | _ => none
+      let shared := implJobs.zipIdx.any fun (p, k) =>
+        (implJobs.drop (k + 1)).any fun q => (cellsOf p).any ((cellsOf q).contains ·)
+      some ⟨model, if impl == "err" then "na" else verdictOf (!shared) "two-jobs-own-the-same-cells"⟩
   | "distpair", kind :: param :: _ =>
     match impl.splitOn "|" with
     | [a, b] =>
